@@ -1,7 +1,10 @@
 //! C15: the real `thread_manager::run` with a fault injected into one worker (cfg-gated fault
 //! points) or a real cause of death; how long until run() returns.  One scenario per process,
 //! inside a private mount namespace (the daemon uses /var/run/clockbound/shm and chronyd's socket).
-//!   thr <point|unwritable-segment> <nth> <0 = panic | 1 = return>
+//!   thr <point|unwritable-segment> <nth> <0 = panic | 1 = return> [<chronyd: 0 = absent | 1 = hung>]
+//! chronyd absent: the poller's request fails at once.  chronyd hung: its socket exists and queues
+//! requests nobody answers, so the poller sits in each request for the client's time-out (3 x 1 s)
+//! and is not at its mailbox when another thread dies.
 //! -> fired=<0|1> returned=<0|1> ms_after_death=<n> total_ms=<n>
 use crate::util::p;
 use clock_bound_d::verif_fault::{self, Fault};
@@ -13,6 +16,14 @@ pub fn run(toks: &[&str]) -> String {
     let point = toks[0];
     let nth: u64 = p(toks[1]);
     let fault = if p::<i64>(toks[2]) == 0 { Fault::Panic } else { Fault::Return };
+    let hung_chronyd = toks.len() > 3 && p::<i64>(toks[3]) == 1;
+    let _hung_socket = if hung_chronyd {
+        let _ = std::fs::create_dir_all("/var/run/chrony");
+        let _ = std::fs::remove_file("/var/run/chrony/chronyd.sock");
+        Some(std::os::unix::net::UnixDatagram::bind("/var/run/chrony/chronyd.sock").expect("bind the hung chronyd's socket (run inside the namespace)"))
+    } else {
+        None
+    };
     let real_cause = point == "unwritable-segment";
     if real_cause {
         // the segment's directory cannot be created: ShmWriter::new fails, the writer thread panics
